@@ -6,7 +6,7 @@ code on a gate with symbolic parameters placed on non-ascending qubits, and the 
 is proved by Base/TrigMat.mcheck_phase_sound.  Multi-controlled X: see Model/MCX.v (boolean
 reversible-circuit model, proved for every number of controls) + structural correspondence.
 """
-STATIC = ["Base/TrigMat", "C08/Reversible"]
+STATIC = ["Base/TrigMat", "C08/Reversible", "C08/MCXProps"]
 import random
 
 import numpy as np
@@ -177,6 +177,8 @@ def main(run):
     tables.run_items(run, table_items(run.tier), "C08_tables", rng)
     tables.run_items(run, mcx_items(run.tier), "C08_mcx", rng)
     mcx_boolean(run, rng)
+    from harness import c08_mcx_model
+    c08_mcx_model.run_model_correspondence(run, rng)
     tables.run_items(run, circuit_items(run.tier), "C08_circuit", rng)
     return run.finish(rule=RULE)
 
@@ -184,6 +186,10 @@ def main(run):
 def replay(run, data):
     rng = random.Random(0)
     key = data["key"]
+    if key.startswith("mcx_model:"):
+        from harness import c08_mcx_model
+        c08_mcx_model.replay_model_case(run, data["replay"])
+        return run.finish(rule="replay of one recorded case")
     for it in table_items("thorough") + mcx_items("thorough") + circuit_items("thorough"):
         if it.key == key:
             vals = data["replay"].get("params")
